@@ -1,5 +1,6 @@
 import Ekit.Props.C10
 import Ekit.Props.C10W
+import Driver.Ev.PoolSoundC10
 open Ekit.Pool
 #print axioms c10_send_never_after_close
 #print axioms c10_conservation
@@ -41,3 +42,15 @@ open Ekit.Pool
 #print axioms c10_witness_all_cases
 #print axioms c10_witness_panic_contained
 #print axioms c10_core_floor
+-- soundness of the task pool's event replayer (Driver/Ev/PoolSound.lean) and what acceptance proves through C10-C12
+#print axioms Driver.Ev.Pool.sync_sound
+#print axioms Driver.Ev.Pool.syncG_sound
+#print axioms Driver.Ev.Pool.invL_sound
+#print axioms Driver.Ev.Pool.resL_sound
+#print axioms Driver.Ev.Pool.pool_replay_sound
+#print axioms Driver.Ev.Pool.pool_replay_reachable
+#print axioms Driver.Ev.Pool.c10_pool_evtrace_exactly_once
+#print axioms Driver.Ev.Pool.c10_pool_evtrace_send_never_after_close
+#print axioms Driver.Ev.Pool.c10_pool_evtrace_exactly_once_at_end
+#print axioms Driver.Ev.Pool.c11_pool_evtrace_bounds
+#print axioms Driver.Ev.Pool.c12_pool_evtrace_done_not_early
